@@ -131,6 +131,21 @@ def main():
     ok &= expect("tle trace: correct reading accepted " + str(v.get(1)), 1 not in v)
     ok &= expect("tle trace: wrong element number rejected", "element-number" in v.get(2, ()))
     ok &= expect("tle trace: accepted text with a wrong checksum rejected", "accepted-invalid" in v.get(3, ()))
+    # ---- TleEpoch: the distance between a microsecond date and the written 8-digit fraction, in limbs ---------------------------
+    # 2013-12-31 23:59:59.999800 : carried into 1 January 2014 (or day 366 of 2013, which the reader takes as the same day)
+    e_ok = {"year": 2013, "doy": 365, "sec": 86399, "us": 999800, "wyy": 14, "wdoy": 1, "wfrac": 0, "ryear": 2014, "rdoy": 1, "rsec": 0, "rus": 0, "len1": 69, "len2": 69}
+    e_366 = dict(e_ok, wyy=13, wdoy=366)
+    e_lost = dict(e_ok, wyy=13, wdoy=365, ryear=2013, rdoy=365)          # the carry is lost: one day early
+    e_mid = {"year": 2012, "doy": 60, "sec": 43200, "us": 432, "wyy": 12, "wdoy": 60, "wfrac": 50000001, "ryear": 2012, "rdoy": 60, "rsec": 43200, "rus": 864, "len1": 69, "len2": 69}
+    e_off = dict(e_mid, wfrac=50000003, rus=2592)                          # 2.16 ms away
+    name, mc, cl = tlc.wrap("TleEpoch", {"Years": {2013}, "Doys": {1}, "Secs": {0}, "Uss": {0}}, name="MCTleEpochSelf")
+    cfg = "INIT TInit\nNEXT TNext\n" + cl + "INVARIANT Report\nCHECK_DEADLOCK FALSE\n"
+    v = verdicts("TleEpoch", cfg, {"events": [e_ok, e_366, e_lost, e_mid, e_off]}, extra={name + ".tla": mc}, name=name)
+    ok &= expect("tle epoch: carry into the next year accepted " + str(v.get(1)), 1 not in v)
+    ok &= expect("tle epoch: day one beyond the year accepted " + str(v.get(2)), 2 not in v)
+    ok &= expect("tle epoch: lost carry (one day early) rejected", {"written", "read-back"} <= set(v.get(3, ())))
+    ok &= expect("tle epoch: nearest fraction accepted " + str(v.get(4)), 4 not in v)
+    ok &= expect("tle epoch: fraction 2 ms away rejected", "written" in v.get(5, ()))
     return 0 if ok else 1
 
 
